@@ -30,6 +30,7 @@ fn setup(ctx: &mut Ctx) {
     ctx.floor("strtab:compared", 500);
     ctx.floor("strtab:must-fail", 20);
     ctx.floor("entsize-clause:rejected", 200);
+    ctx.floor("threshold-count-file", 200);
     for e in Enc::ALL {
         ctx.floor(&format!("enc:{}", e.name()), 100);
     }
@@ -41,6 +42,7 @@ fn strata(t: Tier) -> Vec<Stratum> {
     vec![
         st("generated+mutated", scale(t, 450_000, 4_500_000, 6)),
         ex("big-counts", scale(t, BIG_CASES, BIG_CASES, 0)),
+        ex("threshold-counts", scale(t, 2 * threshold_counts().len() as u64, 2 * threshold_counts().len() as u64, 0)),
         st("table-placement", scale(t, 60_000, 600_000, 4)),
         st("entsize-clause", scale(t, 90_000, 900_000, 4)),
     ]
@@ -274,6 +276,32 @@ fn big_spec(enc: Enc, which: u64, rng: &mut crate::rng::Rng) -> ObjSpec {
     spec
 }
 
+/// (ELF64?, section table?, entry count): tables whose byte size is a multiple of (or just around) floor(L / entsize)
+/// entries for every size threshold L of `util::size_thresholds` (fixed round sizes + literals of the current sources)
+fn threshold_counts() -> &'static [(bool, bool, usize)] {
+    static V: std::sync::OnceLock<Vec<(bool, bool, usize)>> = std::sync::OnceLock::new();
+    V.get_or_init(|| {
+        let mut v = Vec::new();
+        for &l in super::util::size_thresholds() {
+            for (c64, sh, es) in [(false, true, 40u64), (true, true, 64), (false, false, 32), (true, false, 56)] {
+                let per = l / es;
+                let mut cs = vec![per, 2 * per, 3 * per, per + 1, per.saturating_sub(1)];
+                if l % es == 0 {
+                    cs.push(4 * per);
+                }
+                for c in cs {
+                    if c >= 4 && c * es <= (6 << 20) {
+                        v.push((c64, sh, c as usize));
+                    }
+                }
+            }
+        }
+        v.sort_unstable();
+        v.dedup();
+        v
+    })
+}
+
 fn self_consistent(ctx: &mut Ctx, b: &Built) -> bool {
     // oracle self-consistency: the reference locator must agree with the generator's truth
     match ref_open(&b.bytes, &[1, 2]) {
@@ -356,6 +384,27 @@ fn run(ctx: &mut Ctx, si: usize, case: u64) {
             }
         }
         2 => {
+            let (c64, sh, count) = threshold_counts()[(case / 2) as usize];
+            let enc = Enc { c64, big: case % 2 == 1 };
+            let mut spec = ObjSpec::new(enc);
+            spec.add(Sec::new(b".text", k::SHT_PROGBITS, ctx.rng.bytes(24)));
+            if sh {
+                spec.filler_sections = count - 3;
+                spec.filler_segments = ctx.rng.usize_below(3);
+            } else {
+                spec.filler_segments = count;
+            }
+            spec.order = [[Part::Phdrs, Part::Bodies, Part::Shdrs], [Part::Shdrs, Part::Bodies, Part::Phdrs], [Part::Bodies, Part::Shdrs, Part::Phdrs]][ctx.rng.usize_below(3)];
+            let b = build(&spec, &mut ctx.rng);
+            if !self_consistent(ctx, &b) {
+                return;
+            }
+            ctx.nontrivial(crate::rng::mix(case, b.bytes.len() as u64));
+            ctx.count("threshold-count-file");
+            ctx.sample(|| format!("{} threshold-count file: shnum={} phnum={} len={}", enc.name(), b.shnum, b.phnum, b.bytes.len()));
+            judge_open(ctx, &b.bytes, "threshold-count file");
+        }
+        3 => {
             // a table is the last thing in the file: exact fit opens, one byte short fails
             let enc = Enc::ALL[ctx.rng.usize_below(4)];
             let mut o = GenOpts::standard();
